@@ -96,6 +96,7 @@ pub fn where_holds_other(name: &str, case: &crate::anycase::AnyCase, _v: &Violat
     use crate::anycase::AnyCase;
     match (name, case) {
         ("any", _) => true,
+        ("cardinality-network", AnyCase::Cli(c)) => c.args.iter().any(|a| a == "cardinality-network"),
         // !(x >= i64::MIN) and !(x <= i64::MAX) are not representable
         ("atomic-at-i64-extreme", AnyCase::Drcp(c)) => c.atomics.iter().any(|a| (a.cmp == 0 && a.value == i64::MIN) || (a.cmp == 1 && a.value == i64::MAX)),
         _ => false,
